@@ -69,6 +69,9 @@ func (vc *VC) Run() {
 			vc.heapKeySort("#waited", types.Typ[types.Bool])
 			h := vc.heapGet(st, "#waited", types.Typ[types.Bool])
 			vc.addFact("assume", fmt.Sprintf("(forall ((l!w Loc)) (! (not (select %s l!w)) :pattern ((select %s l!w))))", h, h))
+			vc.heapKeySort("#polled", types.Typ[types.Bool])
+			hp := vc.heapGet(st, "#polled", types.Typ[types.Bool])
+			vc.addFact("assume", fmt.Sprintf("(forall ((l!w Loc)) (! (not (select %s l!w)) :pattern ((select %s l!w))))", hp, hp))
 		}
 		if vc.fc.Flags["no-blocking-under-lock"] {
 			// locks held by callers are not tracked: none is held by this function when it starts
@@ -298,6 +301,17 @@ func (vc *VC) runBlock(b *ssa.BasicBlock, entry *State) {
 	vc.cur = b
 	vc.curIdx = 0
 	vc.curState = st
+	// the call most recently executed: known when the block has a single forward predecessor
+	vc.prevRes = nil
+	if b.Index != 0 && len(preds) == 1 && len(b.Preds) == 1 && vc.blockPrevRes != nil {
+		vc.prevRes = vc.blockPrevRes[preds[0].Index]
+	}
+	defer func() {
+		if vc.blockPrevRes == nil {
+			vc.blockPrevRes = map[int]*TV{}
+		}
+		vc.blockPrevRes[b.Index] = vc.prevRes
+	}()
 
 	if li != nil {
 		vc.enterLoop(li, b, preds, st)
